@@ -407,6 +407,26 @@ def template_programs():
     add("equality_structural", main(Print(Bin("==", List(I(1), I(2)), List(I(1), I(2))), Bin("==", List(I(1)), List(I(2))),
                                           Bin("!=", List(I(1)), List(I(1), I(2))), Bin("==", Obj(a=I(1)), Obj(a=I(1))),
                                           Bin("==", Un("?", I(1)), Un("?", I(1))), Bin("==", Un("?", I(1)), NoneV()))))
+    # a variable named like a function of the module hides it - for a call by name exactly as for any other mention -
+    # as long as it is in scope, and not a moment longer
+    step = Fn(["n"], Block([], Bin("+", V("n"), I(1))), "int", ["int"])
+    times10 = FnLit(["n"], Block([], Bin("*", V("n"), I(10))), "int")
+    add("fn_name_hidden_by_parameter", {"step": step,
+        "apply": Fn(["step", "n"], Block([], Call("step", V("n"))), "int", ["fn(n: int) -> int", "int"]),
+        "main": Fn([], Block([Print(Call("apply", times10, I(4)), Call("step", I(4)), Call("apply", V("step"), I(4)))]))})
+    add("fn_name_hidden_by_let", {"step": step,
+        "main": Fn([], Block([Print(Call("step", I(1))),
+                              Expr(Block([Let("step", times10), Print(Call("step", I(1))), Let("g", V("step")), Print(CallV(V("g"), I(2)))])),
+                              Print(Call("step", I(1)))]))})
+    add("fn_name_hidden_by_loop_variable", {"step": step,
+        "main": Fn([], Block([For("step", List(times10, FnLit(["n"], Block([], Bin("-", V("n"), I(1))), "int")), Block([Print(Call("step", I(5)))])),
+                              Print(Call("step", I(5)))]))})
+    add("fn_name_hidden_by_scalar", {"step": step,
+        "main": Fn([], Block([Expr(Block([Let("step", I(7)), Print(V("step"))])), Print(Call("step", I(1))),
+                              Let("f", V("step")), Expr(Block([Let("step", I(8)), Print(CallV(V("f"), V("step")))]))]))})
+    add("fn_name_hidden_in_callee_only", {"step": step,
+        "twice": Fn(["step"], Block([], Bin("*", V("step"), I(2))), "int", ["int"]),
+        "main": Fn([], Block([Print(Call("twice", Call("step", I(1))), Call("step", Call("twice", I(1))))]))})
     return progs
 
 
